@@ -271,9 +271,51 @@ fn check_case(c: &Case, obs: &mut Obs) -> Verdict {
     }
 }
 
+/// every Unicode White_Space code point, their neighbours and zero-width look-alikes that are NOT
+/// whitespace, and the same code points shifted into supplementary planes
+fn tricky_chars() -> Vec<char> {
+    const WS: [u32; 25] = [
+        0x09, 0x0a, 0x0b, 0x0c, 0x0d, 0x20, 0x85, 0xa0, 0x1680, 0x2000, 0x2001, 0x2002, 0x2003, 0x2004, 0x2005, 0x2006, 0x2007, 0x2008,
+        0x2009, 0x200a, 0x2028, 0x2029, 0x202f, 0x205f, 0x3000,
+    ];
+    let mut v: Vec<u32> = vec![];
+    for w in WS {
+        v.extend_from_slice(&[w, w + 1, w.saturating_sub(1)]);
+        for plane in [1u32, 2, 3, 14, 16] {
+            v.push(plane * 0x10000 + w);
+        }
+    }
+    v.extend_from_slice(&[0x200b, 0x200c, 0x200d, 0x2060, 0xfeff, 0x180e, 0x1c, 0x1d, 0x1e, 0x1f, 0x7f, 0xad, 0xfffd, 0x10ffff, 0xd7ff, 0xe000]);
+    v.into_iter().filter_map(char::from_u32).collect()
+}
+
 fn strat(tier: Tier) -> BoxedStrategy<Case> {
     let n = tier.pick(14usize, 30);
+    let tricky = tricky_chars();
+    let nt = tricky.len();
+    let piece = move || {
+        let tricky = tricky.clone();
+        prop_oneof![
+            4 => (0usize..nt).prop_map(move |i| tricky[i].to_string().into_bytes()),
+            2 => any::<char>().prop_map(|c| c.to_string().into_bytes()),
+            4 => (0usize..8).prop_map(|i| atom_bytes(i).to_vec()),
+            1 => (0usize..BAD.len()).prop_map(|i| BAD[i].to_vec()),
+        ]
+    };
     prop_oneof![
+        // strings over every whitespace code point, look-alikes, plane-shifted copies, arbitrary chars
+        3 => proptest::collection::vec(piece(), 0..=n).prop_map(|v| Case { text: BStr(v.concat()) }),
+        // long inputs and long tokens: blocks of hundreds of bytes, terminators near block boundaries
+        1 => (proptest::collection::vec((0usize..8, 1usize..400), 1..=8), any::<bool>()).prop_map(|(runs, crlf)| {
+            let mut v = vec![];
+            for (a, len) in runs {
+                for _ in 0..len {
+                    v.extend_from_slice(atom_bytes(a));
+                }
+                v.extend_from_slice(if crlf { b"\r\n" } else { b"\n" });
+            }
+            Case { text: BStr(v) }
+        }),
         3 => atoms(n, false).prop_map(|a| Case { text: BStr(concat_atoms(&a)) }),
         3 => atoms(n, true).prop_map(|a| Case { text: BStr(concat_atoms(&a)) }),
         // raw bytes biased to interesting values
@@ -299,7 +341,7 @@ impl Prop for C06 {
     type Case = Case;
     const ID: &'static str = "C06";
     fn rule() -> String {
-        "cases = one byte string, tokenized by all six tokenizers as [u8] and (when valid UTF-8) as str; enumeration of all strings of <= 4 (thorough 5) atoms over a 13-atom core alphabet {a, b, space, tab, LF, CR, NBSP, U+2028, e+combining acute, flag emoji, NUL, invalid byte 0x80, truncated 3-byte lead}, plus proptest generation from a 43-atom alphabet (+11 invalid UTF-8 fragments) and biased raw bytes. Oracle: non-empty tokens that are consecutive sub-slices of the input (pointer arithmetic) covering it; lines == reference splitter (LF, CRLF, lone CR), words == maximal runs by char::is_whitespace (invalid byte = non-whitespace), lines_and_newlines == maximal [CR LF]/other runs, chars = one scalar value (bytes: or one invalid sequence <= 3 non-ASCII bytes); str tokens == [u8] tokens for lines/words/chars/lines_and_newlines on valid UTF-8; accessors agree with the byte view. Non-trivial = at least 2 tokens; distinct = distinct input.".into()
+        "cases = one byte string, tokenized by all six tokenizers as [u8] and (when valid UTF-8) as str; enumeration of all strings of <= 4 (thorough 5) atoms over a 13-atom core alphabet {a, b, space, tab, LF, CR, NBSP, U+2028, e+combining acute, flag emoji, NUL, invalid byte 0x80, truncated 3-byte lead}, plus proptest generation from a 43-atom alphabet (+11 invalid UTF-8 fragments), from ALL 25 Unicode White_Space code points with their neighbours, zero-width look-alikes (U+200B, U+FEFF, ...) and copies shifted into supplementary planes, from arbitrary chars, from long runs (tokens of hundreds of bytes, CRLF near block boundaries), and biased raw bytes. Oracle: non-empty tokens that are consecutive sub-slices of the input (pointer arithmetic) covering it; lines == reference splitter (LF, CRLF, lone CR), words == maximal runs by char::is_whitespace (invalid byte = non-whitespace), lines_and_newlines == maximal [CR LF]/other runs, chars = one scalar value (bytes: or one invalid sequence <= 3 non-ASCII bytes); str tokens == [u8] tokens for lines/words/chars/lines_and_newlines on valid UTF-8; accessors agree with the byte view. Non-trivial = at least 2 tokens; distinct = distinct input.".into()
     }
     fn assumptions() -> Vec<String> {
         vec!["unicode words/graphemes are only required to be lossless partitions (the two segmentation crates legitimately differ between str and [u8])".into()]
